@@ -97,8 +97,8 @@ QWalkOK ==
          LET lq == [op |-> "list", kind |-> qr.q.kind, f |-> qr.q.f, pg |-> qr.r.pages[i].pg] IN
          \A j \in 1..Len(ListProps) : ListProp(ListProps[j], X, lq, qr.r.pages[i].r)
     /\ P_WalkComplete(X, qr.q, qr.r)
-\* the servers are read-only
-QReadOnly == [][(Ask \/ WalkStart \/ WalkNext \/ WalkEnd \/ Forget) => st' = st]_qvars
+\* the servers are read-only: once requests are asked (AskMode = "full": every step is a request step) the store never changes
+QReadOnly == [][AskMode = "full" => st' = st]_qvars
 \* a walk makes progress: the pages of a session never outnumber the records of the store by more than one
 QWalkBounded == ses.on => Len(ses.pages) <= Cardinality(DOMAIN StoreOf(st, KStore(ses.q.kind))) + 1
 
